@@ -95,7 +95,11 @@ check("C07",
       "same matrix elements on all interior Fock states (vacuum included), with no coefficient pole reachable from an "
       "interior state. Model families: anharmonic boson, two-level x boson as a 2x2 operator matrix, spin operator x "
       "boson, fermion x boson, two fermions with hopping and pairing, ladder (charge basis), matrix-valued with full "
-      "diagonalisation, operator-valued masks; random rational coefficients.",
+      "diagonalisation, operator-valued masks, boson x ladder, ladder in matrix entries, ladder x fermion, spin x two "
+      "fermions, two bosons, three fermions, linear + cubic drive; random rational coefficients, complex couplings in "
+      "every third session. Known finding negative_integer_resonance (known_findings.json): sessions whose H_0 has "
+      "coinciding levels at negative integer boson occupations may fail and print KNOWN-FINDING (class computed from "
+      "H_0 alone; three sessions in four are drawn outside the class; fixed witness session 0).",
       "Trusted: TLC/SANY 1.8.0, Json module, sympy evaluation of coefficients at integer occupations, the harness's "
       "model builders (sympy expression and tree from the same harness tree). Comparison is order x bandwidth away from "
       "the truncation edge; truncated dimension <= ~22, orders <= 2 (thorough 3); U-dagger U = 1 and U-dagger H U = "
